@@ -24,6 +24,7 @@ import (
 // ---------------------------------------------------------------------------
 
 type Machine struct {
+	WideInts    bool         // C04: integer columns hold full-range values, Sum/Avg are not judged
 	freeIxNames []string     // names of dropped indexes (may be used again)
 	dropped     map[int]bool // columns removed with DropColumn (may be re-created by ActLateColumn)
 	lastBeat    int64        // unix nanoseconds of the last sign of progress (atomic)
